@@ -69,6 +69,10 @@ def compare(pid, case, mline, iline):
     return diffs
 
 
+FIXED_SEEN = []
+FIXED_EXPECTED = "fixed slotref A:outer_nonempty=1,inner_empty=1 B:inner_empty=1,outer_empty=1,copy_empty=0"
+
+
 def build_and_run(cases, workdir, variant="asan"):
     """compile the cases in TUs of PER_TU, run them; returns {idx: output line} and compile failures"""
     os.makedirs(workdir, exist_ok=True)
@@ -118,6 +122,8 @@ def build_and_run(cases, workdir, variant="asan"):
         q = vc_run([exe], env=corr.ASAN_ENV, timeout=120)
         out = {}
         for line in q.stdout.split("\n"):
+            if line.startswith("fixed slotref"):
+                FIXED_SEEN.append(line.strip())
             mm = re.match(r"case (\d+)(.*)", line)
             if mm:
                 out[int(mm.group(1))] = mm.group(2).strip()
@@ -214,6 +220,10 @@ def run(pid, args):
     if len(failures) > max(4, len(usable) // 5):
         v.violation("compile-rejects", {"property": pid, "broken": "the compiler rejects %d of %d expressions the model types as well-formed" % (len(failures), len(usable)),
                                         "sample": list(failures.items())[:2]}, no_input=True)
+    v.coverage["fixed_scenarios"] = {"slot_by_reference": sorted(set(FIXED_SEEN))[:3], "expected": FIXED_EXPECTED}
+    if pid == "C09" and FIXED_SEEN and any(x != FIXED_EXPECTED for x in FIXED_SEEN):
+        v.violation("fixed-slotref", {"property": pid, "broken": "fixed scenario: a slot referred to by std::ref from another slot's functor",
+                                      "expected": FIXED_EXPECTED, "got": sorted(set(FIXED_SEEN))[:3], "source": "harness/expr_prelude.h: fixed_slot_by_reference"})
     seen = set()
     for c, m, il, d in mism:
         key = d[0][0] + ":" + "+".join(sorted(gen_expr.adaptors_of(c.term)))
